@@ -80,6 +80,11 @@ def _gen(g):
         case["bufs"] = g.choice([16384, 65536, None])
         case["max"]["b"] = [g.choice([1000, 65536, 1 << 20])]
         case["first_read"] = g.bool()      # the reader receives one chunk, then stalls
+        if g.chance(35):
+            # the reader first consumes a few hundred KiB in small pieces (chunks split many times), then stalls
+            case["history"] = {"bytes": g.choice([70000, 300000, 600000]), "max": g.choice([64, 100, 1000])}
+            case["msgs"]["a"] = [1 << 20] * g.int(36, 44)
+            case["max"]["b"] = [g.choice([65536, 1 << 20])]
     elif scenario == "pingpong":
         # request/response: the peer stays silent until the reader has consumed the whole message
         case["msgs"] = {"a": msgs(3, [5, 300, 1028, 5000, 70000]), "b": []}
@@ -286,6 +291,15 @@ async def scenario_latereader(case, out, stats, w, r):
                 out.bad("stream-corrupted", "r", "first chunk")
             pre = len(chunk)
             stats["stall_after_first_receive"] += 1
+        hist = case.get("history")
+        if hist:
+            while pre < min(hist["bytes"], total // 4):
+                chunk = await r.receive(hist["max"])
+                if not chunk or len(chunk) > hist["max"] or chunk != pat(pre, len(chunk)):
+                    out.bad("stream-corrupted", "r", f"history read at offset {pre}")
+                    break
+                pre += len(chunk)
+            stats["stall_after_small_reads"] += 1
         last, still = -1, 0
         while not finished.is_set() and still < 8:
             await anyio.sleep(0.05)
@@ -296,6 +310,10 @@ async def scenario_latereader(case, out, stats, w, r):
         accepted_before_read = prog["w"] - pre
         result["before"] = accepted_before_read
         bound = K + max(case["msgs"]["a"]) + (1 << 20)
+        if hist:
+            # a reader that has been reading lets the kernel grow its windows beyond what the never-read reference
+            # measurement K saw (observed: up to 2.2 K under load): generous bound, far larger total
+            bound = 3 * K + (4 << 20)
         if total > bound:
             stats["more_than_kernel_capacity"] += 1
         if accepted_before_read > bound:
@@ -507,7 +525,8 @@ def run_once(case, out, stats):
 def run_case(case) -> Outcome:
     out = Outcome()
     stats = dict.fromkeys(["duplex", "latereader", "close", "busy", "pingpong", "more_than_kernel_capacity",
-                           "chunk_split_by_max_bytes", "watchdog_rerun", "stall_after_first_receive"], 0)
+                           "chunk_split_by_max_bytes", "watchdog_rerun", "stall_after_first_receive",
+                           "stall_after_small_reads"], 0)
     hangs = 0
     for attempt in range(3):
         trial = Outcome()
